@@ -28,9 +28,14 @@ package measurement
 
 // normunit(u): lower-cased, with a plural "s" stripped when longer than two characters.
 //@ spec func normunit(unit string) string = ite(len(lower(unit)) > 2, trimsuffix(lower(unit), "s"), lower(unit))
+// recognised(ut, u): spelling u names a unit of this family, as it stands (lower-cased) or after dropping a plural s.
+//@ spec macro func recognised(ut UnitType, unit string) bool = known(ut, lower(unit)) || known(ut, normunit(unit))
+// denotes(ut, i, u): unit i of the family is one the spelling u can denote (exact spelling first).
+//@ spec macro func denotes(ut UnitType, i int, unit string) bool = ite(known(ut, lower(unit)), isalias(ut, i, lower(unit)), isalias(ut, i, normunit(unit)))
 //@ func UnitType.sniffUnit arith bv
-//@   ensures unknown: result == nil <==> !known(ut, normunit(unit))
-//@   ensures found: result != nil ==> exists i int :: 0 <= i && i < len(ut.Units) && isalias(ut, i, normunit(unit))
+//@   ensures alias_recognised: known(ut, lower(unit)) ==> result != nil
+//@   ensures unknown: result == nil <==> !recognised(ut, unit)
+//@   ensures found: result != nil ==> exists i int :: 0 <= i && i < len(ut.Units) && denotes(ut, i, unit)
 //@       && same(result.Factor, ut.Units[i].Factor) && result.CanonicalName == ut.Units[i].CanonicalName
 
 // factorsok: every factor of the family is a positive finite number.
@@ -52,22 +57,22 @@ package measurement
 // convertUnit: never crosses families and never treats an unknown unit as known.
 //@ func UnitType.convertUnit arith bv floatabs=yes
 //@   requires factorsok(ut)
-//@   ensures family: result2 <==> known(ut, normunit(fromUnitStr))
+//@   ensures family: result2 <==> recognised(ut, fromUnitStr)
 //@   ensures unknown: !result2 ==> result0 == 0.0 && result1 == ""
-//@   ensures slow_explicit: result2 && toUnitStr != "minimum" && toUnitStr != "auto" && known(ut, normunit(toUnitStr)) ==>
+//@   ensures slow_explicit: result2 && toUnitStr != "minimum" && toUnitStr != "auto" && recognised(ut, toUnitStr) ==>
 //@       exists i int, k int :: 0 <= i && i < len(ut.Units) && 0 <= k && k < len(ut.Units)
-//@         && isalias(ut, i, normunit(fromUnitStr)) && isalias(ut, k, normunit(toUnitStr))
+//@         && denotes(ut, i, fromUnitStr) && denotes(ut, k, toUnitStr)
 //@         && same(result0, float64(value) * ut.Units[i].Factor / ut.Units[k].Factor) && result1 == ut.Units[k].CanonicalName
-//@   ensures fallback: result2 && toUnitStr != "minimum" && toUnitStr != "auto" && !known(ut, normunit(toUnitStr)) ==>
+//@   ensures fallback: result2 && toUnitStr != "minimum" && toUnitStr != "auto" && !recognised(ut, toUnitStr) ==>
 //@       result1 == ut.DefaultUnit.CanonicalName
-//@         && exists i int :: 0 <= i && i < len(ut.Units) && isalias(ut, i, normunit(fromUnitStr))
+//@         && exists i int :: 0 <= i && i < len(ut.Units) && denotes(ut, i, fromUnitStr)
 //@              && same(result0, float64(value) * ut.Units[i].Factor / ut.DefaultUnit.Factor)
 //@   ensures auto: result2 && (toUnitStr == "minimum" || toUnitStr == "auto") ==>
 //@       result1 == ut.DefaultUnit.CanonicalName || exists k int :: 0 <= k && k < len(ut.Units) && result1 == ut.Units[k].CanonicalName
 
 // Scale: a unit that no family knows is never converted: the value is returned unchanged (as float64)
 // with the requested unit (dropped for the pseudo units count/sample/unit/minimum/auto).
-//@ spec macro func anyfamily(unit string) bool = exists t int :: 0 <= t && t < len(UnitTypes) && known(UnitTypes[t], normunit(unit))
+//@ spec macro func anyfamily(unit string) bool = exists t int :: 0 <= t && t < len(UnitTypes) && recognised(UnitTypes[t], unit)
 //@ func Scale arith bv floatabs=yes
 //@   callsite Scale onceneg: value < 0 && $arg0 > 0 && $arg0 == -value && $arg1 == fromUnit && $arg2 == toUnit
 //@   requires forall t int :: 0 <= t && t < len(UnitTypes) ==> factorsok(UnitTypes[t])
@@ -77,7 +82,7 @@ package measurement
 //@       result1 == ite(toUnit == "count" || toUnit == "sample" || toUnit == "unit" || toUnit == "minimum" || toUnit == "auto", "", toUnit)
 //@   loop 1
 //@     invariant 0 <= $i && $i <= len(UnitTypes)
-//@     invariant forall t int :: 0 <= t && t < $i ==> !known(UnitTypes[t], normunit(fromUnit))
+//@     invariant forall t int :: 0 <= t && t < $i ==> !recognised(UnitTypes[t], fromUnit)
 
 // The unit table is well formed once the package is initialised (C09/C15: callers of Scale rely on it;
 // that no function other than the initialiser writes the table is the static obligation "global-frame").
@@ -91,10 +96,10 @@ package measurement
 //@   ensures typemismatch: v1 != nil && v2 != nil && trimsuffix(v1.Type, "s") != trimsuffix(v2.Type, "s") ==> !result
 //@   ensures sameunit: v1 != nil && v2 != nil && trimsuffix(v1.Type, "s") == trimsuffix(v2.Type, "s") && v1.Unit == v2.Unit ==> result
 //@   ensures family: v1 != nil && v2 != nil && trimsuffix(v1.Type, "s") == trimsuffix(v2.Type, "s") && v1.Unit != v2.Unit ==>
-//@       (result <==> exists t int :: 0 <= t && t < len(UnitTypes) && known(UnitTypes[t], normunit(v1.Unit)) && known(UnitTypes[t], normunit(v2.Unit)))
+//@       (result <==> exists t int :: 0 <= t && t < len(UnitTypes) && recognised(UnitTypes[t], v1.Unit) && recognised(UnitTypes[t], v2.Unit))
 //@   loop 1
 //@     invariant 0 <= $i && $i <= len(UnitTypes)
-//@     invariant forall t int :: 0 <= t && t < $i ==> !(known(UnitTypes[t], normunit(v1.Unit)) && known(UnitTypes[t], normunit(v2.Unit)))
+//@     invariant forall t int :: 0 <= t && t < $i ==> !(recognised(UnitTypes[t], v1.Unit) && recognised(UnitTypes[t], v2.Unit))
 
 // CommonValueType: every candidate is compared (compatibility and scale ratio) against the running finest
 // type, and the result is a fresh copy of one of the inputs.
